@@ -600,17 +600,34 @@ func TestKeyedChunks(t *testing.T) {
 func journaled(test string, c caseT, f func(caseT) outcome) outcome {
 	rec.Journal(test, c)
 	o := f(c)
+	// a case the harness could not run (a timeout on a saturated machine, a
+	// port clash) is run again before it is given up
+	for i := 0; i < 2 && o.infra != nil && o.viol == ""; i++ {
+		o = f(c)
+	}
 	rec.JournalDone(test)
 	return o
 }
 
-// judge records the case and fails on a violation.
+var executed, noVerdict atomic.Int64
+
+// judge records the case and fails on a violation. A case that could not be run
+// three times in a row is counted as inconclusive and skipped (a wall-clock hit
+// is never a violation); if that happens to more than a handful of cases the
+// step fails without a replay file, which the driver reports as an
+// infrastructure failure (exit 2).
 func judge(t *rapid.T, test string, c caseT, o outcome) {
 	b, _ := json.Marshal(c)
+	n := executed.Add(1)
 	if o.infra != nil {
-		// not a verdict: the driver reports a failing step without a replay
-		// file as an infrastructure failure
-		t.Fatalf("harness could not run the case (no verdict): %v\ncase: %s", o.infra, b)
+		k := noVerdict.Add(1)
+		rec.Inconclusive()
+		rec.Class("no-verdict/" + c.Kind)
+		t.Logf("no verdict for case %s: %v", b, o.infra)
+		if k >= 3 && k*20 > n {
+			t.Fatalf("harness could not run %d of %d cases (no verdict), last: %v\ncase: %s", k, n, o.infra, b)
+		}
+		return
 	}
 	rec.Case(true, ev.Hash(b), o.classes...)
 	if rec.WantSample() {
@@ -631,7 +648,7 @@ func runWire(c caseT) (o outcome) {
 		Policy: pol.URI, Mode: ua.MessageSecurityMode(c.mode()), ClientKey: ck, ServerKey: sk,
 		ClientACK:      &uacp.Acknowledge{ReceiveBufSize: c.HelloRecv, SendBufSize: c.HelloSend},
 		ServerACK:      &uacp.Acknowledge{ReceiveBufSize: c.RecvBuf, SendBufSize: c.SendBuf, MaxChunkCount: 512, MaxMessageSize: 8 << 20},
-		RequestTimeout: 15 * time.Second, RequestIDSeed: c.FirstReq, ServerSeq: c.FirstSeq, ChannelID: c.ChannelID, TokenID: c.TokenID, Tap: true,
+		RequestTimeout: 30 * time.Second, RequestIDSeed: c.FirstReq, ServerSeq: c.FirstSeq, ChannelID: c.ChannelID, TokenID: c.TokenID, Tap: true,
 	})
 	if err != nil {
 		o.infra = fmt.Errorf("gopcua<->gopcua channel did not open: %w", err)
@@ -641,7 +658,7 @@ func runWire(c caseT) (o outcome) {
 	for i, m := range c.Msgs {
 		srvErr := make(chan error, 1)
 		go func() {
-			mb := p.ServerReceive(15 * time.Second)
+			mb := p.ServerReceive(30 * time.Second)
 			if mb == nil {
 				srvErr <- fmt.Errorf("server Receive timed out")
 				return
@@ -928,6 +945,7 @@ func runRefClient(c caseT) (o outcome) {
 	}
 	defer tcp.Close()
 	s := refcodec.NewClientSession(tcp, pol, c.mode(), ck.Key, ck.Cert, sk.Cert)
+	s.Timeout = 40 * time.Second
 	s.AsymOptions.FullBlockWhenAligned = c.FullPad
 	s.SymOptions.FullBlockWhenAligned = c.FullPad
 	ack, err := s.Hello(refcodec.Hello{ReceiveBufferSize: c.HelloRecv, SendBufferSize: c.HelloSend, EndpointURL: ep})
@@ -949,7 +967,7 @@ func runRefClient(c caseT) (o outcome) {
 	}
 	defer conn.Close()
 	errch := make(chan error, 16)
-	scfg := &uasc.Config{SecurityPolicyURI: ua.SecurityPolicyURINone, SecurityMode: ua.MessageSecurityModeNone, Lifetime: 3600_000, RequestTimeout: 15 * time.Second,
+	scfg := &uasc.Config{SecurityPolicyURI: ua.SecurityPolicyURINone, SecurityMode: ua.MessageSecurityModeNone, Lifetime: 3600_000, RequestTimeout: 30 * time.Second,
 		Certificate: sk.Cert, LocalKey: sk.Key}
 	srv, err := uasc.NewServerSecureChannel(ep, conn, scfg, errch, c.ChannelID, c.FirstSeq, c.TokenID)
 	if err != nil {
@@ -966,9 +984,9 @@ func runRefClient(c caseT) (o outcome) {
 		return
 	}
 	seq++
-	mb := recvWithTimeout(srv, 15*time.Second)
+	mb := recvWithTimeout(srv, 30*time.Second)
 	if mb == nil {
-		o.infra = fmt.Errorf("gopcua server neither accepted nor rejected the OPN request within 15 s")
+		o.infra = fmt.Errorf("gopcua server neither accepted nor rejected the OPN request within 30 s")
 		return
 	}
 	if mb.Err != nil {
@@ -1023,9 +1041,9 @@ func runRefClient(c caseT) (o outcome) {
 				o.class("%s/ref-chunk=maximal", tag)
 			}
 		}
-		mb := recvWithTimeout(srv, 15*time.Second)
+		mb := recvWithTimeout(srv, 30*time.Second)
 		if mb == nil {
-			o.infra = fmt.Errorf("gopcua server neither delivered nor rejected message %d within 15 s", i)
+			o.infra = fmt.Errorf("gopcua server neither delivered nor rejected message %d within 30 s", i)
 			return
 		}
 		if mb.Err != nil {
@@ -1072,7 +1090,7 @@ func runRefClient(c caseT) (o outcome) {
 	reqID++
 	clo, _ := refcodec.EncodeService(&ua.CloseSecureChannelRequest{RequestHeader: refcodec.NewRequestHeader(reqID)})
 	if _, err := s.SendMSG("CLO", reqID, seq, 'F', clo); err == nil {
-		if mb := recvWithTimeout(srv, 15*time.Second); mb != nil && mb.Err == io.EOF {
+		if mb := recvWithTimeout(srv, 30*time.Second); mb != nil && mb.Err == io.EOF {
 			o.class("%s/CLO-accepted", tag)
 		}
 	}
@@ -1120,7 +1138,7 @@ func runRefServer(c caseT) (o outcome) {
 		}
 		defer tcp.Close()
 		s := refcodec.NewServerSession(tcp, sk.Key, sk.Cert, c.ChannelID, c.TokenID)
-		s.Timeout = 20 * time.Second
+		s.Timeout = 40 * time.Second
 		s.AsymOptions.FullBlockWhenAligned = c.FullPad
 		s.SymOptions.FullBlockWhenAligned = c.FullPad
 		stageV.Store("HEL/ACK")
@@ -1225,7 +1243,7 @@ func runRefServer(c caseT) (o outcome) {
 		ln.Close()
 		select {
 		case <-srvDone:
-		case <-time.After(25 * time.Second):
+		case <-time.After(60 * time.Second):
 			o.infra = fmt.Errorf("reference server script did not finish (stage %v)", stageV.Load())
 			return
 		}
@@ -1238,7 +1256,7 @@ func runRefServer(c caseT) (o outcome) {
 		}
 	}
 
-	ctx, cancel := context.WithTimeout(context.Background(), 60*time.Second)
+	ctx, cancel := context.WithTimeout(context.Background(), 150*time.Second)
 	defer cancel()
 	d := &uacp.Dialer{Dialer: &net.Dialer{}, ClientACK: &uacp.Acknowledge{ReceiveBufSize: c.HelloRecv, SendBufSize: c.HelloSend}}
 	conn, err := d.Dial(ctx, ep)
@@ -1249,7 +1267,7 @@ func runRefServer(c caseT) (o outcome) {
 	}
 	defer conn.Close()
 	errch := make(chan error, 16)
-	ccfg := &uasc.Config{SecurityPolicyURI: pol.URI, SecurityMode: ua.MessageSecurityMode(c.mode()), Lifetime: 3600_000, RequestTimeout: 15 * time.Second,
+	ccfg := &uasc.Config{SecurityPolicyURI: pol.URI, SecurityMode: ua.MessageSecurityMode(c.mode()), Lifetime: 3600_000, RequestTimeout: 30 * time.Second,
 		RequestIDSeed: c.FirstReq, Certificate: ck.Cert, LocalKey: ck.Key, RemoteCertificate: sk.Cert, Thumbprint: uapolicy.Thumbprint(sk.Cert)}
 	cl, err := uasc.NewSecureChannel(ep, conn, ccfg, errch)
 	if err != nil {
